@@ -914,7 +914,7 @@ func verifLenIsHeaderPlusLength(p *PathAttribute) bool {
 
 // the length in the header that is written is the length of what is written (and has passed the size check of
 // the session, C11), whatever Header.Len held before - a parsed message carries the length it was received with
-//@ props C04 C11
+//@ props C04 C11 C08
 //@ func (*BGPMessage).Serialize
 //@   requires msg != nil
 //@   claims at-call
